@@ -323,7 +323,8 @@ def build_unit(repo, overlay_path, out_path):
                 body = "\n".join("    " + l for l in body.split("\n"))
             report["changed"].append({"key": b["key"], "path": b["path"]})
         origin = {"kind": "item", "key": b["key"], "path": b["path"], "src_line": src_line, "ovl_line": b["line"],
-                  "changed": changed, "rules": fired, "emitted_owner": b["opts"].get("impl_header"), "emitted_name": b["opts"].get("name")}
+                  "changed": changed, "rules": fired, "emitted_owner": b["opts"].get("impl_header"), "emitted_name": b["opts"].get("name"),
+                  "assumed": "verifier::external_body" in b["text"]}
         report["items"].append(origin)
         if wrap:
             hdr = owner if b["opts"].get("impl_header") is None else b["opts"]["impl_header"]
@@ -385,6 +386,11 @@ def lint_annotation(text):
         return None
     if t[0] in HEADER:
         return None
+    # contract of a closure: `|| -> (r: T) ensures .. {` <real body expression> `}`  (braces only group the real expression)
+    if t[0] == "->" and "ensures" in t and t[-1] == "{" and t.count("{") - t.count("}") == 1:
+        return None
+    if t == ["}"]:
+        return None
     if t[0] == "#" and len(t) > 1 and t[1] == "[":
         j = _strip_balanced(t, 1)
         return None if j == len(t) else lint_annotation(" ".join(t[j:]))
@@ -441,6 +447,8 @@ def lint_annotation(text):
         return None
     if rest == [";"]:
         return None
+    if rest == ["else", "{", "}"]:
+        return None  # an else branch holding ghost code only
     return "executable text in annotation: " + " ".join(rest[:12])
 
 
